@@ -6,6 +6,7 @@ regenerated from /repo/passkey-types/src/ctap2/*.rs on every run (translate/ctap
 by the correspondence stream).
 -/
 import PasskeyVerif.Lemmas.CtapMsg
+import PasskeyVerif.Lemmas.Cbor
 import PasskeyVerif.Model.Status
 import PasskeyVerif.Spec.Ctap
 import PasskeyVerif.Model.Client
@@ -72,6 +73,17 @@ theorem C13_roundtrip (s : List Ctap.Field) (hs : s ∈ allSchemas) (validVal : 
     (dflt : Nat → Option Item) (vals : Vals) (hv : ValsOk s dflt validVal vals) :
     deserialize s validVal dflt (serialize s vals) = .ok vals :=
   deserialize_serialize s (C13_schemas_ok s hs) validVal dflt vals hv
+
+/-- **Round trip at the level of bytes**: the CBOR encoding (RFC 8949, definite lengths, shortest heads) of the map a
+message serialises to, followed by anything, is read back by the CBOR reader as that map and the rest, and
+deserialising the map yields the message — for every well-formed value of each of the six messages whose
+members are encodable (lengths and integers below 2^64). -/
+theorem C13_roundtrip_bytes (s : List Ctap.Field) (hs : s ∈ allSchemas) (validVal : Nat → Item → Bool)
+    (dflt : Nat → Option Item) (vals : Vals) (hv : ValsOk s dflt validVal vals)
+    (hwf : (serialize s vals).WF = true) (rest : Cbor.Bytes) :
+    Cbor.decode1 (Cbor.encode (serialize s vals) ++ rest) = some (serialize s vals, rest)
+      ∧ deserialize s validVal dflt (serialize s vals) = .ok vals :=
+  ⟨Cbor.decode1_encode _ hwf rest, C13_roundtrip s hs validVal dflt vals hv⟩
 
 /-- **Unknown keys are ignored**: an entry whose key is an integer 0..255 that is not a member key, or a
 text string naming no member, changes nothing wherever it is injected in front of the remaining entries. -/
